@@ -45,6 +45,9 @@ structure Cfg where
   apiValidatesKeys : Bool
   /-- the gateway's `isValidSwampName` refuses names longer than 65535 bytes -/
   apiBoundsNameLength : Bool
+  /-- the explorer TUI fetches a realm's swamps completely (pages through `ListSwamps`, whose limit is
+      clamped to 1000, or uses `ListAllSwamps`) instead of taking one clamped page -/
+  tuiListsAll : Bool
   /-- `openExistingFile` walks the block headers and truncates the file behind the last block that
       is entirely there (a torn tail would hide every block appended after it) -/
   openCutsTornTail : Bool
@@ -61,7 +64,7 @@ structure Cfg where
 def goodCfg : Cfg :=
   { rejectsEmptyKey := true, rejectsLongKey := true, flushGe := true, flushAtCount := true,
     deleteRemoves := true, validatesCrc := true, validatesULen := true, boundsCompressedSize := true,
-    boundsDecodedLen := true, parseConsumesAll := true, shortPayloadIsEOF := true, chronSurfacesError := true, apiValidatesKeys := true, apiBoundsNameLength := true, openCutsTornTail := true, v2Fallback := true, rejectsLongName := true }
+    boundsDecodedLen := true, parseConsumesAll := true, shortPayloadIsEOF := true, chronSurfacesError := true, apiValidatesKeys := true, apiBoundsNameLength := true, tuiListsAll := true, openCutsTornTail := true, v2Fallback := true, rejectsLongName := true }
 
 /-- canonical error classes of the reader -/
 inductive Err where
